@@ -25,7 +25,8 @@ def main() -> int:
     if args.replay:
         with open(args.replay) as fh:
             case = json.load(fh)["case"]
-        res = mod.replay(case)
+        from mc.common import replay_case
+        res = mod.replay(case) if hasattr(mod, "replay") else replay_case(case)
         print(json.dumps(res, indent=1, default=repr))
         if res.get("violates"):
             print(f"VIOLATION property={pid} replay={args.replay}")
